@@ -164,6 +164,9 @@ pub struct ProbeSpec {
     pub bounds: Vec<(f64, f64)>,
     pub start: Vec<f64>,
     pub s0: f64,
+    /// true: the same parameter vector always gets the same answer (a landscape); false: the
+    /// answers follow the script call by call (an adversarial, inconsistent score function)
+    pub memo: bool,
 }
 
 impl ProbeSpec {
@@ -172,9 +175,9 @@ impl ProbeSpec {
     }
     pub fn standard(n: usize) -> ProbeSpec {
         match n {
-            1 => ProbeSpec { bounds: vec![(-1., 1.)], start: vec![0.125], s0: 0. },
-            2 => ProbeSpec { bounds: vec![(-1., 1.), (0., 4.)], start: vec![0.25, 4.], s0: 0. },
-            3 => ProbeSpec { bounds: vec![(-1., 1.), (0., 4.), (0.1, 0.35)], start: vec![0., 2., 0.1], s0: 0. },
+            1 => ProbeSpec { bounds: vec![(-1., 1.)], start: vec![0.125], s0: 0., memo: true },
+            2 => ProbeSpec { bounds: vec![(-1., 1.), (0., 4.)], start: vec![0.25, 4.], s0: 0., memo: true },
+            3 => ProbeSpec { bounds: vec![(-1., 1.), (0., 4.), (0.1, 0.35)], start: vec![0., 2., 0.1], s0: 0., memo: true },
             _ => panic!("probe size"),
         }
     }
@@ -184,14 +187,29 @@ impl ProbeSpec {
         p.start = p.bounds.iter().map(|(lo, hi)| lo + 0.45 * (hi - lo)).collect();
         p
     }
+    /// Start values outside the declared ranges (a state read from a file can carry anything).
+    pub fn outside(n: usize) -> ProbeSpec {
+        let mut p = ProbeSpec::standard(n);
+        p.start = p.bounds.iter().enumerate().map(|(i, (lo, hi))| if i % 2 == 0 { hi + 0.3 * (hi - lo) } else { lo - 0.2 * (hi - lo) }).collect();
+        p
+    }
+    pub fn raw(mut self) -> ProbeSpec {
+        self.memo = false;
+        self
+    }
+    pub fn with_s0(mut self, s0: f64) -> ProbeSpec {
+        self.s0 = s0;
+        self
+    }
     pub fn json(&self) -> Value {
-        json!({"bounds": self.bounds, "start": self.start, "s0": self.s0})
+        json!({"bounds": self.bounds, "start": self.start, "s0": self.s0, "memo": self.memo})
     }
     pub fn from_json(v: &Value) -> ProbeSpec {
         ProbeSpec {
             bounds: v["bounds"].as_array().unwrap().iter().map(|b| (b[0].as_f64().unwrap(), b[1].as_f64().unwrap())).collect(),
             start: v["start"].as_array().unwrap().iter().map(|x| x.as_f64().unwrap()).collect(),
             s0: v["s0"].as_f64().unwrap(),
+            memo: v["memo"].as_bool().unwrap_or(true),
         }
     }
 }
@@ -212,6 +230,7 @@ pub struct Env {
     pub events: Vec<Event>,
     pub score_calls: usize,
     pub instances: usize,
+    pub no_memo: bool,
 }
 
 pub struct Probe {
@@ -294,8 +313,9 @@ impl State for Probe {
         let mut e = self.env.lock().unwrap();
         let call = e.score_calls;
         e.score_calls += 1;
-        let ans = match e.memo.get(&key) {
-            Some(a) => *a,
+        let known = if e.no_memo { None } else { e.memo.get(&key).cloned() };
+        let ans = match known {
+            Some(a) => a,
             None => {
                 let a = match e.answers.get(call) {
                     Some(a) => *a,
@@ -398,6 +418,7 @@ pub fn run_script(cfg: &Cfg, spec: &ProbeSpec, script: &[StepScript]) -> Obs {
     let env = Arc::new(Mutex::new(Env::default()));
     {
         let mut e = env.lock().unwrap();
+        e.no_memo = !spec.memo;
         e.answers.push(Some(spec.s0));
         for s in script {
             e.answers.push(s.answer);
@@ -833,7 +854,7 @@ pub fn count_scripts(alpha: &Alphabet, len: usize, max_dev: usize) -> u64 {
 }
 
 /// Full product over a reduced alphabet, depth `len`.
-pub fn for_each_product<F: FnMut(&[StepScript])>(n: usize, qs: &[f64], thr_ks: &[u64], offsets: &[Option<f64>], len: usize, mut f: F) {
+pub fn for_each_product<F: FnMut(&[StepScript])>(n: usize, qs: &[f64], thr_ks: &[u64], offsets: &[Option<f64>], len: usize, absolute: bool, mut f: F) {
     let mut alts: Vec<Vec<StepScript>> = vec![];
     for t in 1..=len {
         let mut v = vec![];
@@ -841,7 +862,7 @@ pub fn for_each_product<F: FnMut(&[StepScript])>(n: usize, qs: &[f64], thr_ks: &
             for &q in qs {
                 for &k in thr_ks {
                     for o in offsets {
-                        v.push(StepScript { index: i, q, thr_k: k, answer: o.map(|x| t as f64 + x) });
+                        v.push(StepScript { index: i, q, thr_k: k, answer: o.map(|x| if absolute { x } else { t as f64 + x }) });
                     }
                 }
             }
